@@ -76,7 +76,9 @@ Definition bal_of (s : step) (o : obs) : acct -> denom -> Z :=
     let d := pk_denom (s_packet s) in
     if denom_eqb dd Std then
       if acct_eqb a (rcpt s) then ob_rstd o else if acct_eqb a (esc_of s) then ob_pstd o
-      else if acct_eqb a bystander then ob_xstd o else 0
+      else if acct_eqb a bystander then ob_xstd o
+      else if denom_eqb d Std && acct_eqb a M_erc20 then ob_mv o   (* the packet carries the standard coin itself: [ob_mv] is a standard-coin balance *)
+      else 0
     else if denom_eqb dd d then
       if acct_eqb a (rcpt s) then ob_rv o else if acct_eqb a (esc_of s) then ob_pv o
       else if acct_eqb a M_erc20 then ob_mv o else if acct_eqb a bystander then ob_xv o else 0
